@@ -108,7 +108,7 @@ func init() {
 	core.Register(&core.Property{
 		ID:    "C07",
 		Level: "model_checking",
-		Rule: "universe = replacement kinds (one per ast.Expr node type: name, literal, composite literal, function literal, selector, index, slice, type assertion, call, star, unary, binary, comparison with a composite literal, key:value-free map literal, array/map/chan/func/interface/struct types, parenthesised) put (F1) in place of hole(x) in every expression slot of the context catalogue, incl. if/for/switch headers, := left side, range clause, case lists, array length; (F2) in place of a name in every name-only and every type slot x file variant {plain, generated-code header, two-import block} x {in place, --diff, --print-only} x --skip-import-processing on/off, plus the library API; (F3) every sequence of 2..3 targets over {fits (long), fits (short), misfit, unmatched} in one run x {in place, --diff} x --skip-import-processing. " +
+		Rule: "universe = replacement kinds (one per ast.Expr node type: name, literal, composite literal, function literal, selector, index, slice, type assertion, call, star, unary, binary, comparison with a composite literal, key:value-free map literal, array/map/chan/func/interface/struct types, parenthesised) put (F1) in place of hole(x) in every expression slot of the context catalogue, incl. if/for/switch headers, := left side, range clause, case lists, array length; (F2) in place of a name in every name-only and every type slot x file variant {plain, generated-code header, two-import block, cgo import \"C\" with preamble, single import} x {in place, --diff, --print-only} x --skip-import-processing on/off, plus the library API; (F3) every sequence of 2..3 targets over {fits (long), fits (short), misfit, unmatched} in one run x {in place, --diff} x --skip-import-processing. " +
 			"Oracle needs no model: whatever is emitted with success status must be accepted by go/parser (for --diff: the result of applying the diff); on a reported failure exit is non-zero, stderr names the file, the file is byte-identical and nothing was printed. non-trivial = the change applies",
 		Bounds: func(tier string) map[string]any {
 			return map[string]any{"replacements": len(c07Repls()), "expr_slots": len(gen.ExprContexts()), "type_slots": len(gen.TypeContexts())}
@@ -135,11 +135,17 @@ func c07Header(variant, src string) string {
 		return "// Code generated by tool. DO NOT EDIT.\n\n" + src
 	case "imports":
 		return strings.Replace(src, "package p\n", "package p\n\nimport (\n\t\"fmt\"\n\t\"os\"\n)\n", 1)
+	case "cgo":
+		return strings.Replace(src, "package p\n", "package p\n\n/*\n#include <stdio.h>\n*/\nimport \"C\"\n", 1)
+	case "one-import":
+		return strings.Replace(src, "package p\n", "package p\n\nimport \"os\"\n", 1)
 	}
 	return src
 }
 
 func c07Gen(tier string, emit func(any)) {
+	emit(&C07Case{Family: "longname", Flags: []string{}})
+	emit(&C07Case{Family: "longname", Flags: []string{"--skip-import-processing"}})
 	for _, sq := range seqs([]string{"fits-long", "fits-short", "misfit", "nomatch"}, 3) {
 		if len(sq) < 2 {
 			continue
@@ -149,7 +155,10 @@ func c07Gen(tier string, emit func(any)) {
 		}
 	}
 	emitAll := func(family, repl, ctx, patch, src string) {
-		for _, h := range []string{"plain", "generated", "imports"} {
+		for _, h := range []string{"plain", "generated", "imports", "cgo", "one-import"} {
+			if (h == "cgo" || h == "one-import") && tier != "thorough" && family != "hole-call" {
+				continue
+			}
 			if h != "plain" && !strings.HasPrefix(src, "package p\n") {
 				continue
 			}
@@ -190,10 +199,45 @@ func parses(src string) error {
 	return err
 }
 
+// c07RunLongName: a target whose name leaves no room for a longer sibling name, rewritten to something shorter.
+func c07RunLongName(env *core.Env, c *C07Case) core.Outcome {
+	judge := func(real bool) core.Outcome {
+		o := core.Outcome{Nontrivial: true, Class: "longname/" + modeClass(c.Flags)}
+		name := "l_" + strings.Repeat("n", 238) + ".go"
+		src := "package p\n\nvar v = shrink(aaaaaaaaaaaaaaaa, bbbbbbbbbbbbbbbbbbbb, cccccccccccccccccc)\n\nfunc tail() {\n\tshrink(1, 2, 3)\n}\n"
+		sb := newSandbox(env, "c07l", map[string]string{"t/" + name: src, "v.patch": "@@\n@@\n-shrink(...)\n+s()\n"})
+		defer sb.remove()
+		r := sb.run(real, "t", append(append([]string{"-p", sb.path("v.patch")}, c.Flags...), name), "")
+		got := sb.read("t/" + name)
+		bad := func(key, format string, a ...any) core.Outcome {
+			o.Violation = fmt.Sprintf("[long file name, flags %q] ", strings.Join(c.Flags, " ")) + fmt.Sprintf(format, a...)
+			o.FindingKey = "C07:" + key + "/longname"
+			return o
+		}
+		if r.Panic != "" {
+			return bad("panic", "gopatch crashed: %s", r.Panic)
+		}
+		if perr := parses(got); perr != nil {
+			return bad("unparseable-emitted", "exit %d; the file does not parse afterwards (%v):\n%s", r.Exit, perr, got)
+		}
+		if r.Exit != 0 && got != src {
+			return bad("failure-but-file-modified", "a failure is reported (exit %d) but the file was modified:\n%s", r.Exit, got)
+		}
+		if r.Exit == 0 && strings.Contains(got, "shrink") {
+			return bad("success-but-not-patched", "exit status 0 but the file still contains the pattern:\n%s", got)
+		}
+		return o
+	}
+	return believeIfReal(judge)
+}
+
 func c07Run(env *core.Env, ci any) core.Outcome {
 	c := ci.(*C07Case)
 	if len(c.Multi) > 0 {
 		return c07RunMulti(env, c)
+	}
+	if c.Family == "longname" {
+		return c07RunLongName(env, c)
 	}
 	mode := strings.Join(c.Flags, " ")
 	o := core.Outcome{}
